@@ -123,6 +123,12 @@ CHECKS["C13"]["text"] += " The overlap space also suspends the password savers i
 CHECKS["C14"]["text"] += " Added space overlap: save A suspended at either hook point inside helper::crypt::encrypt, save B (another entry point, another password, another package, same directory) run to completion there on the same thread; both files judged with every clause for their OWN password and package (3 x 2 x 3 cases, deterministic)."
 CHECKS["C16"]["text"] += " Iterative context bounding: a first space explores every completely-explored configuration with at most 2 preemptions; when it reports violations the complete pass is not run (recorded in caps_hit), so a change that multiplies the scheduling points is still answered in seconds."
 CHECKS["C20"]["text"] += " Added: every text-bearing special value also as a rich text of one and two runs, as the cached text of a formula and through auto-typed set_value."
+CHECKS["C01"]["text"] += " Added space annotated: every core16 value at off-diagonal / diagonal positions with one annotation the reader applies in a pass of its own (hyperlink, comment, validation, conditional format, merged block), with and without a cell at the transposed position."
+CHECKS["C03"]["text"] += " The attr family also carries white space written as character references (&#10; &#9; &#13;&#10;) in the table-column, defined-name and cell-string channels."
+CHECKS["C05"]["text"] += " Rotation values 1, 45, 90, 180 and the sentinel 255."
+CHECKS["C06"]["text"] += " Added space protection-fields: every subset of the 13 workbook-protection fields (8191 cases, each field with its own value) and every single field, pair and all 21 fields of the sheet protection."
+CHECKS["C07"]["text"] += " Row and column dimensions of the seeds carry styles of their own (with and without a height / width); the reference grid relocates the style with the dimension and the observation reads it back; cells that are set, moved or copied keep their own style."
+CHECKS["C10"]["text"] += " The alphabet includes the degenerate calls move_range / copy_range by (0,0), insert_new_row(p, 0) and remove_column(p, 0)."
 for _c in ("C17","C18","C19","C20"):
     CHECKS[_c]["text"] += " SUPPLEMENTARY (never part of the exhaustive claim): spaces named <id>~par run 4 consecutive cases at the same time on free-running threads - sampled interleavings, absolute oracles, so a report is a real wrong result while a clean pass proves nothing; it exists because a lock or cache introduced by a change carries no hook point for the cooperative scheduler."
 for _c in ("C14","C15","C17","C18","C19","C20"):
